@@ -150,6 +150,9 @@ def tuple_sites(ix):
         for f in m.funcs.values():
             for x in _walk_own(f.node):
                 if isinstance(x, ast.Tuple) and len(x.elts) == 4 and isinstance(x.ctx, ast.Load):
+                    par = getattr(x, '_parent', None)
+                    if isinstance(par, (ast.For, ast.comprehension)) and par.iter is x:
+                        continue        # a display that is only iterated over is a collection, not a number
                     out.append((rel, f, x))
             if isinstance(f.node, ast.Lambda) and isinstance(f.node.body, ast.Tuple) and \
                     len(f.node.body.elts) == 4:
